@@ -31,7 +31,7 @@ def model_checks(tier):
 
 
 def cases(tier, seed, info):
-    n = 1500 if tier == 'quick' else 40000
+    n = 1500 if tier == 'quick' else 70000     # thorough: (k * 37) mod 65536 sweeps every action-flag word
     out = [dict(seed=seed * 1000003 + j, start=j, n=50, tier=tier) for j in range(0, n, 50)]
     info['pels'] = n
     return out
@@ -57,7 +57,7 @@ def build(rng, k):
     uh['scope'] = (k // 3) % 256 if k % 2 else k % 6
     uh['sev'] = (k * 5) % 256
     uh['etype'] = (k * 3) % 256 if k % 4 else rng.choice([0, 1, 2, 8, 0x30])
-    uh['flags'] = encode.u16((k * 37) % 65536) if k % 3 else encode.u16(1 << (k % 16))
+    uh['flags'] = encode.u16((k * 37) % 65536) if (k % 3 or k >= 3000) else encode.u16(1 << (k % 16))
     uh['states'] = [rng.randrange(256), rng.randrange(256), (k // 2) % 256 if k % 2 else k % 5, k % 256 if k % 3 else k % 5]
     secs = []
     eh = genpel.gen_eh(rng)
